@@ -2,10 +2,26 @@
 SPEC = dict(
     title="Open snapshot streams never race with reaping",
     pkg="./snapshot", files=["snapshot/c11_verif_test.go"],
-    rule="TODO",
-    trusted=[],
-    assumptions=[],
-    level_text="TODO", level_note="TODO", technique="TODO",
+    rule="200 (quick) / 5000 (thorough) sequencer-driven schedules of 6-12 actions on a real snapshot.Store: open / read (2 KiB) / close of up to ~6 streams, idle fire and early fire "
+         "(4 in 5 schedules inject the timer callback with an aged lastRead; 1 in 5 use a 20 ms read timeout and the real timers, incl. Close issued when the timer is due), "
+         "incremental snapshot creation, Store.Reap and the reaper goroutine, both paused inside the write-locked section; "
+         "a schedule is non-trivial when at least one idle fire happened and at least one reap was attempted while a stream was open; distinct by actions + observations",
+    exhaustive=False,
+    trusted=["MultiRSW as modelled in C34 (Model.C34.mrsw_step_obs is the lock of this model); sync.Mutex/Cond, time.AfterFunc",
+             "LockingStreamer.Close and checkIdle hold the streamer's mutex for their whole body, so each is one atomic action of the model; "
+             "the timer goroutine racing with Close and with Read at the Go memory-model level is exercised (timer schedules) but not modelled: partial",
+             "reaping is paused through the Observer filter seam (called inside reap() before EndWrite): the file operations of the reap have completed at the pause point",
+             "white-box reads of rsync.MultiRSW's numReaders/owner through reflect+unsafe under its mutex; goroutine states from runtime.Stack"],
+    assumptions=["progress is enabledness of the reaper goroutine's resume step (Go scheduler fairness assumed)",
+                 "Read after the consumer's own Close is one observation class (the in-memory header still reads, the file part fails)"],
+    level_text="For every schedule: C11_reaping_excludes_streams (reaping -> no stream holds, one reaper at most), C11_reader_count (numReaders = streams opened and not yet released, >= 0), "
+               "C11_release_exactly_once (EndRead once per opened stream for any order of Close / idle fire / repeated Close; the lock never panics), "
+               "C11_reap_enabled_when_streams_done (no holder left -> Store.Reap admitted and a waiting reaper's resume step is enabled and acquires), "
+               "C11_idle_fire_releases_partial (a due idle timer can always fire, force-closes and releases; partial: timer-vs-Close below mutex granularity not modelled).",
+    level_note="Model = Open/Read/Close/checkIdle/Reap/reapLoop over the C34 lock model; tie = same step function replayed on recorded real schedules with white-box reader count and owner; "
+               "oracles: stream bytes = snapshot content at open, no reap with an open stream, reaper not stuck, reader count, idle timeout enforced and not early.",
+    technique="Coq invariant proof over all schedules (composition with the C34 lock model) + sequencer-driven differential run of a real snapshot.Store",
     design_ref="6/C11",
     timeout_quick=600, timeout_thorough=7200,
+    shard=50,
 )
